@@ -87,6 +87,18 @@ func c16Sequence(rc *RunCtx, i, s int, r *core.Rand) {
 		return
 	}
 	defer os.RemoveAll(dir)
+	// foreign entries the store must leave alone and the scan must not list: a sub-directory and
+	// files with data-like names, garbage or empty
+	foreign := map[string]int64{}
+	if r.Bool() {
+		os.Mkdir(filepath.Join(dir, "sub.dat"), 0o755)
+		os.WriteFile(filepath.Join(dir, "notes.txt"), []byte("not a bloom file"), 0o600)
+		os.WriteFile(filepath.Join(dir, "zz-foreign.dat"), bytes.Repeat([]byte{0xab}, r.Range(1, 300)), 0o600)
+		os.WriteFile(filepath.Join(dir, "zz-old.dat.bak"), validBloomFile(r, "bak"), 0o600)
+		os.WriteFile(filepath.Join(dir, "zz-empty.dat"), nil, 0o600)
+		os.WriteFile(filepath.Join(dir, "zz-orphan.tmp"), []byte("half a write"), 0o600)
+		foreign = listDir(dir)
+	}
 	fs := bs.NewFileSystemDataStore(dir)
 	pool := []string{"n0", "n1", "n2", "n3"}[:r.Range(1, 4)]
 	fresh := 0
@@ -116,6 +128,9 @@ func c16Sequence(rc *RunCtx, i, s int, r *core.Rand) {
 	}
 	check := func(after string) bool {
 		want := map[string]int64{}
+		for n, sz := range foreign {
+			want[n] = sz
+		}
 		for b, a := range dat {
 			want[b+".dat"] = int64(len(a.bytes))
 		}
